@@ -8,12 +8,11 @@
   `CTM/Lemmas/BridgeWF.lean`:
 
     `t.validate = .ok ()`   the validator accepts the taxonomy
-    `t.hierarchy.Nodup`     level names are distinct
     `DictOK t`              the Python dicts have distinct keys (modelling
                             convention: association lists)
-    `HasNode t`             the taxonomy has a node at the top level.  NOT
-                            implied by the validator, and necessary:
-                            `validated_empty_taxonomy_not_mapped`.
+  Nothing else about the taxonomy: distinct level names, a non-empty hierarchy
+  and a node at the top level are consequences of acceptance (they were not
+  before `fix:` 799c7a6 / 6649211 — the two findings of this bridge).
     `VoteOK t vote`         the oracle returns a child of the parent it is asked about
 -/
 import CTM.Props.C01
@@ -26,14 +25,13 @@ open CTM CTM.LevelLoop CTM.RawTree CTM.Bridge
 taxonomy the validator accepts, the batch loop `run_type_assignment` computes,
 row by row, the walk of that row's cell. -/
 theorem levelLoop_refines_walk_of_validate {κ} (t : RawTree) (vote : Oracle κ) (cells : List κ)
-    (hval : t.validate = .ok ()) (hN : t.hierarchy.Nodup) (hd : DictOK t) (hnode : HasNode t)
+    (hval : t.validate = .ok ()) (hd : DictOK t)
     (hv : VoteOK t vote) :
     runLevelLoop t vote cells = cells.mapM (walk t vote) :=
-  levelLoop_refines_walk t vote cells (wfb_of_validate hval hN hd hnode) hv
+  levelLoop_refines_walk t vote cells (wfb_of_validate hval hd) hv
 
 example : runLevelLoop exTree exVote [0, 1, 5, 2] = [0, 1, 5, 2].mapM (walk exTree exVote) :=
-  levelLoop_refines_walk_of_validate _ _ _ exTree_accepted.1 exTree_accepted.2.1
-    exTree_accepted.2.2.1 exTree_accepted.2.2.2 (exVote_ok _)
+  levelLoop_refines_walk_of_validate _ _ _ exTree_accepted.1 exTree_accepted.2 (exVote_ok _)
 
 /-- "Every taxonomy the tree validator accepts ... returns exactly one record per
 query cell ... with an assignment at every level of the taxonomy. Each
@@ -43,34 +41,17 @@ hypothesis; the path is stated both in C01's form (`IsRootToLeafPath`:
 consecutive assignments related by `child_to_parent`) and in C10's form
 (`RawTree.IsPath`: each assignment a listed child of the previous one). -/
 theorem path_of_validate {κ} (t : RawTree) (vote : Oracle κ) (cells : List κ)
-    (hval : t.validate = .ok ()) (hN : t.hierarchy.Nodup) (hd : DictOK t) (hnode : HasNode t)
+    (hval : t.validate = .ok ()) (hd : DictOK t)
     (hv : VoteOK t vote) :
     ∃ rs, runLevelLoop t vote cells = .ok rs ∧ rs.length = cells.length ∧
       ∀ r ∈ rs, IsRootToLeafPath t r ∧ IsPath t (r.map (·.2.assignment)) := by
-  have w := WF_of_validate hval hN hd
-  obtain ⟨rs, h1, h2, h3⟩ := path t vote cells (wfb_of_WF w hnode) hv
+  have w := WF.of_validate hval hd
+  obtain ⟨rs, h1, h2, h3⟩ := path t vote cells (WF_wfb w) hv
   exact ⟨rs, h1, h2, fun r hr => ⟨h3 r hr, isPath_of_rootToLeaf w (h3 r hr)⟩⟩
 
 example : ∃ rs, runLevelLoop exTree exVote [3, 4] = .ok rs ∧ rs.length = 2 ∧
     ∀ r ∈ rs, IsRootToLeafPath exTree r ∧ IsPath exTree (r.map (·.2.assignment)) :=
-  path_of_validate exTree exVote [3, 4] exTree_accepted.1 exTree_accepted.2.1
-    exTree_accepted.2.2.1 exTree_accepted.2.2.2 (exVote_ok _)
-
-/-- the same with the side condition in the reference's own terms: "Every
-taxonomy the tree validator accepts" that holds AT LEAST ONE REFERENCE CELL
-(`all_rows` non-empty; then the taxonomy has a node, `Bridge.hasNode_of_rows`)
-"... returns exactly one record per query cell ... one root-to-leaf path". -/
-theorem path_of_validate_with_cells {κ} (t : RawTree) (vote : Oracle κ) (cells : List κ)
-    (hval : t.validate = .ok ()) (hN : t.hierarchy.Nodup) (hd : DictOK t)
-    (hrows : t.allRows ≠ []) (hv : VoteOK t vote) :
-    ∃ rs, runLevelLoop t vote cells = .ok rs ∧ rs.length = cells.length ∧
-      ∀ r ∈ rs, IsRootToLeafPath t r ∧ IsPath t (r.map (·.2.assignment)) :=
-  path_of_validate t vote cells hval hN hd (hasNode_of_rows (WF_of_validate hval hN hd) hrows) hv
-
-example : ∃ rs, runLevelLoop exTree exVote [3, 4] = .ok rs ∧ rs.length = 2 ∧
-    ∀ r ∈ rs, IsRootToLeafPath exTree r ∧ IsPath exTree (r.map (·.2.assignment)) :=
-  path_of_validate_with_cells exTree exVote [3, 4] exTree_accepted.1 exTree_accepted.2.1
-    exTree_accepted.2.2.1 (by decide) (exVote_ok _)
+  path_of_validate exTree exVote [3, 4] exTree_accepted.1 exTree_accepted.2 (exVote_ok _)
 
 /-- C01 ∘ C10 (`from_records` / `fromRecordsRaw_paths`): when the taxonomy is
 the one `get_taxonomy_tree` builds from per-cell label columns (nested, at least
@@ -83,8 +64,7 @@ theorem path_is_reference_record {κ} (cols : List Level) (recs : List (List Nod
     ∃ rs, runLevelLoop (fromRecordsRaw cols recs) vote cells = .ok rs ∧ rs.length = cells.length ∧
       ∀ r ∈ rs, r.map (·.2.assignment) ∈ recs := by
   have w := fromRecordsRaw_wf hc hne hr hn hrec
-  have hnode := hasNode_fromRecords hc hne hr hn hrec
-  obtain ⟨rs, h1, h2, h3⟩ := path_of_validate _ vote cells w.valid w.hNodup w.dict hnode hv
+  obtain ⟨rs, h1, h2, h3⟩ := path_of_validate _ vote cells w.valid w.dict hv
   exact ⟨rs, h1, h2, fun r hr' => (fromRecordsRaw_paths hc hne hr hn _).1 (h3 r hr').2⟩
 
 example : ∃ rs, runLevelLoop (fromRecordsRaw [0, 1] [[10, 20], [10, 21], [11, 22]]) exVote [0, 1, 2]
@@ -107,7 +87,7 @@ is validator-accepted; the tree of the run inherits well-formedness
 (`Bridge.wfb_runTree`). -/
 theorem order_ids_of_validate {κ} (t0 t : RawTree) (cfg : Config) (vote : Oracle κ)
     (ids : List CellId) (cells : List κ) (order : List Nat)
-    (hval : t0.validate = .ok ()) (hN : t0.hierarchy.Nodup) (hd : DictOK t0) (hnode : HasNode t0)
+    (hval : t0.validate = .ok ()) (hd : DictOK t0)
     (hrun : runTree t0 cfg = .ok t) (hv : VoteOK t vote)
     (hlen : ids.length = cells.length) (hnd : ids.Nodup)
     (hproc : 1 ≤ cfg.nProc) (hcs : 1 ≤ cfg.chunkSize)
@@ -119,13 +99,12 @@ theorem order_ids_of_validate {κ} (t0 t : RawTree) (cfg : Config) (vote : Oracl
     ∀ out, mapPipeline t0 cfg vote ids cells order = .ok out →
       out.map (·.cellId) = ids ∧ out.length = cells.length :=
   order_ids t0 t cfg vote ids cells order hrun
-    (wfb_runTree (wfb_of_validate hval hN hd hnode) hrun) hv hlen hnd hproc hcs horder
+    (wfb_runTree (wfb_of_validate hval hd) hrun) hv hlen hnd hproc hcs horder
 
 example : ∀ out, mapPipeline exTree { dropLevel := some 1, chunkSize := 2, nProc := 2 } exVote
     [7, 3, 9] [0, 1, 2] [1, 0] = .ok out → out.map (·.cellId) = [7, 3, 9] ∧ out.length = 3 :=
   (order_ids_of_validate exTree exDropped { dropLevel := some 1, chunkSize := 2, nProc := 2 } exVote
-    [7, 3, 9] [0, 1, 2] [1, 0] exTree_accepted.1 exTree_accepted.2.1 exTree_accepted.2.2.1
-    exTree_accepted.2.2.2 (by rfl) (exVote_ok _) rfl (by decide) (by decide) (by decide)
+    [7, 3, 9] [0, 1, 2] [1, 0] exTree_accepted.1 exTree_accepted.2 (by rfl) (exVote_ok _) rfl (by decide) (by decide) (by decide)
     (by decide)).2
 
 /-- "Every taxonomy the tree validator accepts — whatever its depth, including
@@ -134,7 +113,7 @@ mapped without error" (run without `drop_level` / `flatten`). -/
 theorem no_error_plain_of_validate {κ} (t0 : RawTree) (cfg : Config) (vote : Oracle κ)
     (ids : List CellId) (cells : List κ) (order : List Nat)
     (hdrop : cfg.dropLevel = none) (hflat : cfg.flatten = false)
-    (hval : t0.validate = .ok ()) (hN : t0.hierarchy.Nodup) (hd : DictOK t0) (hnode : HasNode t0)
+    (hval : t0.validate = .ok ()) (hd : DictOK t0)
     (hv : VoteOK t0 vote)
     (hlen : ids.length = cells.length) (hnd : ids.Nodup)
     (hproc : 1 ≤ cfg.nProc) (hcs : 1 ≤ cfg.chunkSize)
@@ -142,13 +121,13 @@ theorem no_error_plain_of_validate {κ} (t0 : RawTree) (cfg : Config) (vote : Or
       (chunks cells.length (effChunk cells.length cfg.nProc cfg.chunkSize)).length)) :
     mapPipeline t0 cfg vote ids cells order =
       .ok ((List.zipWith (mkRecord t0 vote) ids cells).map (markDirect t0.hierarchy)) :=
-  no_error_plain t0 cfg vote ids cells order hdrop hflat (wfb_of_validate hval hN hd hnode) hv
+  no_error_plain t0 cfg vote ids cells order hdrop hflat (wfb_of_validate hval hd) hv
     hlen hnd hproc hcs horder
 
 example : mapPipeline exTree { chunkSize := 2, nProc := 2 } exVote [7, 3, 9] [0, 1, 2] [1, 0] =
     .ok ((List.zipWith (mkRecord exTree exVote) [7, 3, 9] [0, 1, 2]).map (markDirect exTree.hierarchy)) :=
   no_error_plain_of_validate exTree { chunkSize := 2, nProc := 2 } exVote [7, 3, 9] [0, 1, 2] [1, 0]
-    rfl rfl exTree_accepted.1 exTree_accepted.2.1 exTree_accepted.2.2.1 exTree_accepted.2.2.2
+    rfl rfl exTree_accepted.1 exTree_accepted.2
     (exVote_ok _) rfl (by decide) (by decide) (by decide) (by decide)
 
 /-- "this also holds when the taxonomy is flattened ..., in which case the levels
@@ -158,7 +137,7 @@ theorem flatten_path_of_validate {κ} (t0 : RawTree) (cfg : Config) (vote : Orac
     (ids : List CellId) (cells : List κ) (order : List Nat)
     (hdrop : cfg.dropLevel = none) (hflat : cfg.flatten = true)
     (hleaf : t0.leafLevel = some ll)
-    (hval : t0.validate = .ok ()) (hN : t0.hierarchy.Nodup) (hd : DictOK t0) (hnode : HasNode t0)
+    (hval : t0.validate = .ok ()) (hd : DictOK t0)
     (hv : VoteOK t0.flatten vote)
     (hlen : ids.length = cells.length) (hnd : ids.Nodup)
     (hproc : 1 ≤ cfg.nProc) (hcs : 1 ≤ cfg.chunkSize)
@@ -171,15 +150,14 @@ theorem flatten_path_of_validate {κ} (t0 : RawTree) (cfg : Config) (vote : Orac
         ∀ l ∈ t0.hierarchy, path l ∈ t0.nodesAt l ∧
           ∃ e', o.levels.lookup l = some e' ∧ e'.assignment = path l ∧
             (l ≠ ll → e'.direct = some false ∧ e'.ru = none) :=
-  flatten_path t0 cfg vote ll ids cells order hdrop hflat hleaf (wfb_of_validate hval hN hd hnode)
+  flatten_path t0 cfg vote ll ids cells order hdrop hflat hleaf (wfb_of_validate hval hd)
     hv hlen hnd hproc hcs horder
 
 example : ∃ out, mapPipeline exTree { flatten := true, chunkSize := 2, nProc := 2 } exVote
     [7, 3, 9] [0, 1, 2] [1, 0] = .ok out ∧ out.length = 3 :=
   (fun ⟨out, h1, h2, _⟩ => ⟨out, h1, h2⟩) <| flatten_path_of_validate exTree
     { flatten := true, chunkSize := 2, nProc := 2 } exVote 2 [7, 3, 9] [0, 1, 2]
-    [1, 0] rfl rfl (by decide) exTree_accepted.1 exTree_accepted.2.1 exTree_accepted.2.2.1
-    exTree_accepted.2.2.2 (exVote_ok _) rfl (by decide) (by decide) (by decide) (by decide)
+    [1, 0] rfl rfl (by decide) exTree_accepted.1 exTree_accepted.2 (exVote_ok _) rfl (by decide) (by decide) (by decide) (by decide)
 
 /-- "... or a level is dropped for the run" — for every validator-accepted stored
 taxonomy and every level `l` that `drop_level` accepts (the split of the
@@ -189,7 +167,7 @@ theorem drop_path_of_validate {κ} (t0 t' : RawTree) (cfg : Config) (vote : Orac
     (l : Level) (ids : List CellId) (cells : List κ) (order : List Nat)
     (hcfg : cfg.dropLevel = some l) (hflat : cfg.flatten = false)
     (hdrop : t0.dropLevel l = .ok t')
-    (hval : t0.validate = .ok ()) (hN : t0.hierarchy.Nodup) (hd : DictOK t0) (hnode : HasNode t0)
+    (hval : t0.validate = .ok ()) (hd : DictOK t0)
     (hv : VoteOK t' vote)
     (hlen : ids.length = cells.length) (hnd : ids.Nodup)
     (hproc : 1 ≤ cfg.nProc) (hcs : 1 ≤ cfg.chunkSize)
@@ -206,33 +184,46 @@ theorem drop_path_of_validate {κ} (t0 t' : RawTree) (cfg : Config) (vote : Orac
   obtain ⟨hm, _⟩ := dropLevel_hierarchy hdrop
   obtain ⟨pre, cl, post, hs⟩ := split_of_mem_ne_getLast hm (dropLevel_not_leaf hdrop)
   exact drop_path t0 t' cfg vote l cl pre post ids cells order hcfg hflat hdrop hs
-    (wfb_of_validate hval hN hd hnode) hv hlen hnd hproc hcs horder
+    (wfb_of_validate hval hd) hv hlen hnd hproc hcs horder
 
 example : ∃ out, mapPipeline exTree { dropLevel := some 1, chunkSize := 2, nProc := 2 } exVote
     [7, 3, 9] [0, 1, 2] [1, 0] = .ok out ∧ out.length = 3 :=
   (fun ⟨out, h1, h2, _⟩ => ⟨out, h1, h2⟩) <|
     drop_path_of_validate exTree exDropped { dropLevel := some 1, chunkSize := 2, nProc := 2 } exVote 1
-      [7, 3, 9] [0, 1, 2] [1, 0] rfl rfl (by rfl) exTree_accepted.1 exTree_accepted.2.1
-      exTree_accepted.2.2.1 exTree_accepted.2.2.2 (exVote_ok _) rfl
+      [7, 3, 9] [0, 1, 2] [1, 0] rfl rfl (by rfl) exTree_accepted.1 exTree_accepted.2 (exVote_ok _) rfl
       (by decide) (by decide) (by decide) (by decide)
 
-/-- The side condition `HasNode` was not implied by acceptance until `fix:`
-6649211: the taxonomy with one level and no node used to be accepted by
-`validate_taxonomy_tree` (`Bridge.emptyTree_discrepancy`; now refused with
-"taxonomy has no nodes at its top level", model `.noNodes`, so that `HasNode`
-follows from acceptance — `Bridge.hasNode_of_valid`), and the level loop fails
-on it for every non-empty query, with the
-`RuntimeError("Not sure how to proceed ...")` of `run_type_assignment`. -/
-theorem validated_empty_taxonomy_not_mapped {κ} (vote : Oracle κ) (c : κ) (cells : List κ) :
-    emptyTree.validate = .error .noNodes ∧
-      runLevelLoop emptyTree vote (c :: cells) = .error .noChildren := by
-  refine ⟨by rfl, ?_⟩
-  obtain ⟨cs, hcs⟩ := selectCells_ok (c :: cells) (List.range (cells.length + 1))
-    (fun j hj => by simpa using hj)
-  simp [runLevelLoop, emptyTree, levelSteps, parentNodeList, processParents, processParent,
-    chosenIdxOf, RawTree.children, RawTree.nodesAt, RawTree.level, List.lookup, hcs, votesFor]
+/-- "this also holds when the taxonomy is flattened or a level is dropped for the
+run" — BOTH at once (`C01.flatten_drop_path`), for every validator-accepted
+stored taxonomy and every level `drop_level` accepts: the run never fails,
+returns one record per cell, each a root-to-leaf path of the STORED taxonomy,
+every level above the leaf level flagged not directly assigned. -/
+theorem flatten_drop_path_of_validate {κ} (t0 t' : RawTree) (cfg : Config) (vote : Oracle κ)
+    (l ll : Level) (ids : List CellId) (cells : List κ) (order : List Nat)
+    (hdrop : t0.dropLevel l = .ok t') (hleaf : t0.leafLevel = some ll)
+    (hval : t0.validate = .ok ()) (hd : DictOK t0) (hv : VoteOK t0.flatten vote)
+    (hlen : ids.length = cells.length) (hnd : ids.Nodup)
+    (hproc : 1 ≤ cfg.nProc) (hcs : 1 ≤ cfg.chunkSize)
+    (horder : order.Perm (List.range
+      (chunks cells.length (effChunk cells.length cfg.nProc cfg.chunkSize)).length)) :
+    ∃ out, mapPipeline t0 { cfg with dropLevel := some l, flatten := true } vote ids cells order
+        = .ok out ∧ out.length = cells.length ∧
+      ∀ o ∈ out, ∃ path : Level → Node,
+        (∀ cp ∈ pairsOf t0.hierarchy.reverse,
+          t0.childToParent cp.1 (path cp.1) = some (path cp.2)) ∧
+        ∀ x ∈ t0.hierarchy, path x ∈ t0.nodesAt x ∧
+          ∃ e', o.levels.lookup x = some e' ∧ e'.assignment = path x ∧
+            (x ≠ ll → e'.direct = some false ∧ e'.ru = none) := by
+  obtain ⟨hm, _⟩ := dropLevel_hierarchy hdrop
+  obtain ⟨pre, cl, post, hs⟩ := split_of_mem_ne_getLast hm (dropLevel_not_leaf hdrop)
+  exact flatten_drop_path t0 t' cfg vote l cl ll pre post ids cells order hdrop hs hleaf
+    (wfb_of_validate hval hd) hv hlen hnd hproc hcs horder
 
-example : runLevelLoop emptyTree exVote [0] = .error .noChildren :=
-  (validated_empty_taxonomy_not_mapped exVote 0 []).2
+example : ∃ out, mapPipeline exTree { dropLevel := some 1, flatten := true, chunkSize := 2, nProc := 2 }
+    exVote [7, 3, 9] [0, 1, 2] [1, 0] = .ok out ∧ out.length = 3 :=
+  (fun ⟨out, h1, h2, _⟩ => ⟨out, h1, h2⟩) <|
+    flatten_drop_path_of_validate exTree exDropped { chunkSize := 2, nProc := 2 } exVote 1 2
+      [7, 3, 9] [0, 1, 2] [1, 0] (by rfl) (by decide) exTree_accepted.1 exTree_accepted.2
+      (exVote_ok _) rfl (by decide) (by decide) (by decide) (by decide)
 
 end CTM.C01
